@@ -3,4 +3,8 @@ import engine_common
 
 
 def run(chk, replay=None):
-    engine_common.run_engine(chk, "C13", ["bp.ndjson"])
+    # goroutine-level model with a receive queue of capacity 1 and a peer that streams: the read loop
+    # waits for room without holding pendingBytesMu, so the conversation always completes; the design
+    # that keeps the mutex across the hand-over (EngineLockAcross.cfg) deadlocks and must be rejected
+    engine_common.run_engine(chk, "C13", ["bp.ndjson"], mc=["EngineSmallQueue.cfg"],
+                             must_fail=["EngineLockAcross.cfg"])
